@@ -70,7 +70,7 @@ fn cfg(tier: Tier) -> ProgCfg {
             read: 1,
             ..OpMix::NONE
         },
-        wmix: WriteMix { bad_decls: false, meta: true, by_hash: false },
+        wmix: WriteMix { bad_decls: false, meta: true, by_hash: false, rich_matching: false, interfere: false },
         sizes: SizeMix::Small,
         keys: (1, 8),
         blobs: (1, 5),
